@@ -340,6 +340,23 @@ func checkValue(c *core.Ctx, su *setup, t *target, v *tlref.Value, stale func(f 
 			return fmt.Errorf("%s: tl.Unmarshal from a reader that returns short reads gives another value (%v)\n  %v\nwant\n  %s", t.name, err, back, v)
 		}
 	}
+	// a value consumes exactly its own bytes also from a reader that offers nothing but Read (a network
+	// connection, a LimitedReader): what follows in the stream is the next value's
+	{
+		tail := []byte{0xde, 0xad, 0xbe, 0xef, 1, 2, 3, 4}
+		under := bytes.NewReader(append(append([]byte{}, want...), tail...))
+		p := reflect.New(t.goType)
+		if err := tl.Unmarshal(struct{ io.Reader }{under}, p.Interface()); err != nil {
+			return fmt.Errorf("%s: tl.Unmarshal of the reference bytes followed by other data, from a plain io.Reader: %v\nvalue %s", t.name, err, v)
+		}
+		if under.Len() != len(tail) {
+			return fmt.Errorf("%s: tl.Unmarshal from a plain io.Reader consumed %d bytes, the value has %d (the %d bytes behind it belong to the next value)\nvalue %s", t.name, len(want)+len(tail)-under.Len(), len(want), len(tail), v)
+		}
+		back, err := tlbind.FromGo(s, t.typeExpr(), p.Elem())
+		if err != nil || !tlref.Equal(back, v) {
+			return fmt.Errorf("%s: tl.Unmarshal from a plain io.Reader gives another value (%v)\n  %v\nwant\n  %s", t.name, err, back, v)
+		}
+	}
 	// the decoded value owns its bytes: a caller that decodes from a reusable buffer (bytes.Buffer, a scratch
 	// slice behind a reader) and then refills that buffer for the next object still holds the first object
 	for _, kind := range []string{"bytes.Buffer", "bytes.Reader over a scratch slice"} {
